@@ -41,12 +41,21 @@ fn gen(rng: &mut Rng, _idx: u64, tier: Tier) -> Case {
         1 => args.push(format!("--filter={}", rng.pick(&nine))),
         2 => { for _ in 0..2 { args.push(format!("--filter={}", rng.pick(&nine))); } }
         3 => { for k in nine { args.push(format!("--filter={}", k)); } }
-        4 => args.push(format!("--filter={}", rng.pick(&[1u32, 7, 19, 24, 31, 99]))),
+        4 => args.push(format!("--filter={}", rng.pick(&[1u32, 7, 19, 24, 31, 99, 32, 36, 37, 43, 49, 50, 52, 53, 4 + 256, 17 + 65536]))),
         _ => { for k in nine { if rng.chance(0.5) { args.push(format!("--filter={}", k)); } } }
     }
-    let n = if tier == Tier::Thorough && rng.chance(0.05) { rng.range(100, 500) } else { rng.range(3, 60) } as usize;
+    let long = rng.chance(0.02);
+    let n = if long || (tier == Tier::Thorough && rng.chance(0.05)) { rng.range(270, 700) } else { rng.range(3, 60) } as usize;
     let mut lines: Vec<(i64, Vec<u8>, String)> = vec![];
+    let mono = *rng.pick(&[Kind::Df11, Kind::AirPos, Kind::Df4, Kind::Df20(gen::Reg::B20)]);
     for _ in 0..n {
+        if long && rng.chance(0.9) {
+            // a long stream dominated by one format: counts beyond 255
+            let a = rng.below(n_ac as u64) as usize;
+            let f = gen::frame(rng, &mut acs[a], mono, true);
+            lines.push((if upd > 0 { 400_000 } else { 0 }, gen::line_of(rng, &f, false), format!("{:?}", mono).to_lowercase()));
+            continue;
+        }
         let a = rng.below(n_ac as u64) as usize;
         let dt = if upd > 0 { *rng.pick(&[0i64, 300_000, 999_999, 1_000_000, 1_000_001, (upd + 1) * 1_000_000, upd * 1_000_000 + 999_999]) } else { gen::gap_us(rng, d).min(2_000_000) };
         let (b, tag): (Vec<u8>, String) = match rng.below(12) {
